@@ -135,7 +135,7 @@ def make(job, spec, order, strategy):
         cfg.append(f'queries_path = "{put("queries", qs)}"')
     if strategy == "client":
         opts.setdefault("target_package_name", "gclient")
-        opts.setdefault("include_comments", "none")
+        opts.setdefault("include_comments", "stable")
     for k, v in opts.items():
         cfg.append(f"{k} = {toml_val(v)}")
     (job / "pyproject.toml").write_text("\n".join(cfg) + "\n")
